@@ -117,3 +117,73 @@ def random_hint(nodes, k, depth, rng, subst, drop_fields):
         return "(struct %s%s)" % (hx("S"), "".join(" (%s %s)" % (hx(f), rng.choice(["any", "ignored", "u32", "(option any)"]))
                                                      for f in rng.sample(names, rng.randint(0, 4))))
     return "any"
+
+
+# ---------------------------------------------------------------- enum-as-union targets with other variant shapes
+def variant_shapes(t, d, rng=None, stats=None):
+    """t: a typed target (parsed s-expression: nested lists, as spec/Denote's typed_target gives it, every union branch a
+    NEWTYPE variant), d: the events the specification expects for it (parsed). Returns the target in which the enum-as-union
+    variants take the other shapes serde offers for the same data:
+      (newtype xN (seq T))            over an array branch  -> (tuple xN T1 .. Tk)   k = the number of elements of the value
+      (newtype xN (struct xR F..))    over a record branch  -> (struct xN F..)       a struct variant
+    (the variant the value takes and, with arity 0..3, the array variants it does not take). The events serde reports for
+    these shapes are the same as for the newtype shape (enum name, then the sequence / the fields): the expectation stays
+    the specification's dval_typed whenever every tuple's arity matches its data; otherwise (an array of unions whose
+    elements have different lengths) the model decides. `stats` counts the rewritten variants."""
+    if stats is None:
+        stats = {}
+    def bump(k):
+        stats[k] = stats.get(k, 0) + 1
+    def walk(t, d):
+        if not isinstance(t, list) or not t:
+            return t
+        h = t[0]
+        if h == "option":
+            if isinstance(d, list) and d and d[0] == "some":
+                return ["option", walk(t[1], d[1])]
+            return ["option", walk(t[1], None)]
+        if h == "seq":
+            first = d[1] if isinstance(d, list) and len(d) > 1 and d[0] == "seq" else None
+            return ["seq", walk(t[1], first)]
+        if h == "map":
+            first = None
+            if isinstance(d, list) and len(d) > 1 and d[0] == "map" and isinstance(d[1], list) and len(d[1]) == 2:
+                first = d[1][1]
+            return ["map", t[1], walk(t[2], first)]
+        if h == "struct":
+            dv = {}
+            if isinstance(d, list) and d and d[0] == "struct":
+                for f in d[1:]:
+                    if isinstance(f, list) and len(f) == 2:
+                        dv[f[0]] = f[1]
+            return ["struct", t[1]] + [[f[0], walk(f[1], dv.get(f[0]))] for f in t[2:]]
+        if h == "enum":
+            taken, payload = None, None
+            if isinstance(d, list) and len(d) == 3 and d[0] == "enum":
+                taken, payload = d[1], d[2]
+            out = ["enum", t[1]]
+            for v in t[2:]:
+                if not (isinstance(v, list) and v[0] == "newtype" and isinstance(v[2], list)):
+                    out.append(v)
+                    continue
+                inner = v[2]
+                mine = payload if v[1] == taken else None
+                if inner[0] == "seq":
+                    if mine is not None and isinstance(mine, list) and mine[0] == "seq":
+                        bump("tuple-variant-taken")
+                        out.append(["tuple", v[1]] + [walk(inner[1], e) for e in mine[1:]])
+                    elif mine is None:
+                        bump("tuple-variant-other")
+                        k = rng.randint(0, 3) if rng is not None else 2
+                        out.append(["tuple", v[1]] + [walk(inner[1], None)] * k)
+                    else:
+                        out.append(v)
+                elif inner[0] == "struct":
+                    bump("struct-variant-taken" if mine is not None else "struct-variant-other")
+                    w = walk(inner, mine)
+                    out.append(["struct", v[1]] + w[2:])
+                else:
+                    out.append(["newtype", v[1], walk(inner, mine)])
+            return out
+        return t
+    return walk(t, d)
